@@ -18,4 +18,11 @@ ExportEdge ==
 \* bound for the edge export (total API calls)
 TotalCalls == LET S[P \in SUBSET Procs] == IF P = {} THEN 0 ELSE LET p == CHOOSE x \in P : TRUE IN calls[p] + S[P \ {p}] IN S[Procs]
 Cap == TotalCalls <= MaxTotal
+
+\* symmetry reduction for the export (the replayed paths lose nothing but renamings): processes make their
+\* first call in the order p1, p2, ..., and the very first Lock is on k1
+Rank(p) == CHOOSE i \in 1..Cardinality(Procs) : p = "p" \o ToString(i)
+OrderedFirstCalls ==
+  /\ (last'.a \in {"Enq", "Unlock"} /\ calls' # calls /\ calls'[last'.p] = 1) => \A q \in Procs : Rank(q) < Rank(last'.p) => calls[q] > 0
+  /\ (last'.a = "Enq" /\ nextId = 0) => last'.k = "k1"
 =============================================================================
